@@ -398,6 +398,33 @@ pub fn constructs(thorough: bool) -> Vec<Construct> {
             v.push(stmt_c(&format!("shadow-then-read:{name}:{ts}"), 2, move |o| text.replace("TYPE", &ts2).replace("OTHER", &o[1]).replace("FIRST", &o[0])));
         }
     }
+    // a parameter spelled like the function it belongs to: in the body the name is the parameter,
+    // with the parameter's type, for the checker, for both folds and when the body runs
+    for t in palette::position_types() {
+        let ts = t.print();
+        let usage: &str = match ts.as_str() {
+            "int" => "g + 1",
+            "float" => "g / 2.0",
+            "string" => "g + \"s\"",
+            "[int]" => "g[0]",
+            "(int, int)" => "g.0",
+            "mut int" => "*g",
+            "()->int" => "g()",
+            "struct{a: int}" => "g.a",
+            _ => continue,
+        };
+        for (name, text) in [
+            ("bound", "g := (g: TYPE) -> any { y := USAGE; return y }; return g(OPERAND);"),
+            ("returned", "g := (g: TYPE) -> any { return USAGE }; return g(OPERAND);"),
+            ("in-a-closure", "g := (g: TYPE) -> any { h := () -> any { y := USAGE; return y }; return h() }; return g(OPERAND);"),
+            ("second-parameter", "g := (n: int, g: TYPE) -> any { if n > 0 { y := USAGE; return y }; return 0 }; return g(1, OPERAND);"),
+            ("declared-in-a-function", "mk := () -> any { g := (g: TYPE) -> any { y := USAGE; return y }; return g }; k := mk(); return k(OPERAND);"),
+            ("bound-literal", "g := ((g: TYPE) -> any { y := USAGE; return y }); return g(OPERAND);"),
+        ] {
+            let text = text.replace("TYPE", &ts).replace("USAGE", usage);
+            v.push(stmt_c(&format!("parameter-named-like-its-function:{name}:{ts}"), 1, move |o| text.replace("OPERAND", &o[0])));
+        }
+    }
     // the same binders (and every kind of block holding nothing but a binder), after which the
     // operand is *used* as what its static type says it is
     for t in palette::position_types() {
